@@ -202,11 +202,17 @@ func (g *Generator) generateMockFieldAssignments(
 				g.getDefaultGenerator(field),
 				")",
 			)
-		case protoreflect.Int32Kind, protoreflect.Int64Kind:
+		case protoreflect.Int32Kind:
+			// selectIntExample returns int64
+			gf.P(varName, ".", fieldName, " = int32(selectIntExample(\"", fieldPath, "\", ", g.getDefaultValue(field), "))")
+		case protoreflect.Int64Kind:
 			gf.P(varName, ".", fieldName, " = selectIntExample(\"", fieldPath, "\", ", g.getDefaultValue(field), ")")
 		case protoreflect.BoolKind:
 			gf.P(varName, ".", fieldName, " = selectBoolExample(\"", fieldPath, "\", ", g.getDefaultValue(field), ")")
-		case protoreflect.FloatKind, protoreflect.DoubleKind:
+		case protoreflect.FloatKind:
+			// selectFloatExample returns float64
+			gf.P(varName, ".", fieldName, " = float32(selectFloatExample(\"", fieldPath, "\", ", g.getDefaultValue(field), "))")
+		case protoreflect.DoubleKind:
 			gf.P(varName, ".", fieldName, " = selectFloatExample(\"", fieldPath, "\", ", g.getDefaultValue(field), ")")
 		case protoreflect.MessageKind:
 			switch {
